@@ -1,5 +1,5 @@
 (** Extraction of the runnable definitions (ExtrOcamlBasic only; N/Z/positive/nat stay inductive). *)
-From Bbolt Require Import Base Freelist Spec Layout Cursor Pager Compact Grow Batch Lock.
+From Bbolt Require Import Base Freelist Spec Layout Cursor Pager Compact Grow Batch Lock Conc.
 Require Import ExtrOcamlBasic.
 Extraction Blacklist List String.
 Separate Extraction
@@ -15,5 +15,6 @@ Separate Extraction
   Compact.compact Compact.wf_ents
   Grow.alloc_refused Grow.grow Grow.grow_nosync Grow.mmap_size
   Lock.lstep Lock.lrun
+  Conc.crun Conc.cinit Conc.serial_ok Conc.rec_ok Conc.ver_of
   Batch.run_batch Batch.bstate0 Batch.res_get Batch.committed_of Batch.cnt_get
   Pager.pstep Pager.pg_open Pager.scan_free Pager.commit_writes Pager.pend_pages Pager.minus Pager.e_tx Pager.e_pg.
